@@ -22,8 +22,9 @@ Output per `run`:
     clauses <name>=<0|1> ...
     best <score|none>
     second same=<0|1> nodes=<0|1> links=<0|1> start=<0|1> final=<0|1> ret=<n>
-    model first=<0|1> second=<0|1>      (the old numbers printed above reproduce the lattice of the model's posteriorPruneFast)
-    direct first=<0|1> second=<0|1> loop=<0|1>  |  direct skipped     (fastPrune = the model's posteriorPrune, see below)
+    model first=<0|1> second=<0|1>      (the parts of prunePartsFast printed above make up the lattice of posteriorPruneFast)
+    direct first=<0|1> second=<0|1> loop=<0|1>  |  direct skipped     (small lattices: the proof-side definitions posteriorPrune,
+                                                                        keepOrder, keptLinks give the same; exitsLoop = exitsCut)
     end -/
 namespace Driver.C12P
 open SSVerif.Lattice SSVerif.Nfa Driver
@@ -43,36 +44,6 @@ def optNat (z : Int) : Option Nat := if z < 0 then none else some z.toNat
 def ints (ws : List String) : Option (List Int) := ws.mapM parseInt
 def b01 (b : Bool) : String := if b then "1" else "0"
 
-/-- result of `fastPrune` -/
-structure Fast where
-  order : List Nat
-  kept : List Link
-  lat : Lat
-  ret : Nat
-
-/-- the parts of `posteriorPruneFast` (same shape: the traversal `vis`, the survivors `S`, the stale flags and the two
-sweeps computed once with the model's own `cutB`, `reachGo`, `sweepFuel`, `renumNode`, `renumLink`), keeping also the
-OLD numbers of what survives: `order = keepOrder`, `kept = keptLinks`.  Every run compares `(lat, ret)` with the
-model's `posteriorPruneFast`, and on lattices of at most `maxDirect` links everything with the model's (cubic)
-definitions `posteriorPrune`, `keepOrder`, `keptLinks` themselves. -/
-def fastPrune (L : Lat) (post : Link → Int) (beam : Int) : Fast :=
-  let vis := traverseEdges L
-  let cut := cutB vis post beam
-  let S := L.links.filter fun l => !cut l
-  let st : Nat → Bool := staleV vis
-  let fs := reachGo S (·.src) (·.dst) (fun _ => false) (sweepFuel L) [L.start]
-  let te := reachGo S (·.dst) (·.src) st (sweepFuel L) [L.final]
-  let keep : Nat → Bool := fun v => v == L.start || v == L.final || (fs.contains v && (st v || te.contains v))
-  let order := (List.range L.n).filter keep
-  let exitsCutF : Nat → List Link := fun v =>
-    let xs := (exits L v).filter fun l => !cut l
-    if ((exits L v).filter cut).length % 2 = 1 then xs.reverse else xs
-  let kept := order.flatMap fun v => (exitsCutF v).filter fun l => keep l.dst
-  { order := order, kept := kept,
-    lat := { nframes := L.nframes, nodes := order.map L.node, links := kept.map (renumLink order),
-             start := renumNode order L.start, final := renumNode order L.final },
-    ret := (vis.filter fun l => decide (post l < beam)).length }
-
 def sameLat (A B : Lat) : Bool :=
   decide (A.nodes = B.nodes) && decide (A.links = B.links) && decide (A.start = B.start) && decide (A.final = B.final) &&
     decide (A.nframes = B.nframes)
@@ -85,15 +56,17 @@ def report (s : St) (beam : Int) : List String := Id.run do
   let G : Nfa := { start := s.gstart, final := 0, arcs := s.arcs.toList }
   if s.posts.size ≠ L.links.length then return ["bad-input", "end"]
   let post : Link → Int := fun l => s.posts.getD (L.links.idxOf l) 0
-  -- the model's own function (`posteriorPruneFast = posteriorPrune` by `posteriorPruneFast_eq`); `fastPrune` of this
-  -- driver only supplies the old numbers of what was kept, and must reproduce the model's lattice
+  -- the model's own functions: `posteriorPruneFast = posteriorPrune` (`posteriorPruneFast_eq`) and `prunePartsFast` =
+  -- (`keepOrder`, `keptLinks`, `nPruned`) (`prunePartsFast_eq`), which gives the OLD numbers of what was kept
   let (L', ret) := posteriorPruneFast L post beam
-  let F := fastPrune L post beam
-  let m1 := sameLat F.lat L' && decide (F.ret = ret)
+  let parts := prunePartsFast L post beam
+  let order := parts.1
+  let kept := parts.2.1
+  let m1 := decide (L'.nodes = order.map L.node) && decide (L'.links = kept.map (renumLink order)) && decide (parts.2.2 = ret)
   let mut out : List String :=
     ["before " ++ sepBy " " ((clauseResults G L).map fun (n, b) => s!"{n}={b01 b}") ++ s!" ok={b01 (latticeOKB G L)}",
-     s!"ret {ret}", "nodes " ++ sepBy " " (F.order.map toString), s!"ends {L'.start} {L'.final}"]
-  for (l, l') in F.kept.zip L'.links do
+     s!"ret {ret}", "nodes " ++ sepBy " " (order.map toString), s!"ends {L'.start} {L'.final}"]
+  for (l, l') in kept.zip L'.links do
     out := out ++ [s!"k {l.src} {l.dst} {l'.src} {l'.dst} {l'.ef} {l'.ascr}"]
   let cl := clauseResults G L'
   out := out ++ ["clauses " ++ sepBy " " (cl.map fun (n, b) => s!"{n}={b01 b}")]
@@ -101,11 +74,11 @@ def report (s : St) (beam : Int) : List String := Id.run do
   | none => out := out ++ ["best none"]
   | some (_, sc, _) => out := out ++ [s!"best {sc}"]
   -- second prune: the posterior of a renumbered link is the one of its original
-  let posts' : Array Int := (F.kept.map post).toArray
+  let posts' : Array Int := (kept.map post).toArray
   let post' : Link → Int := fun l => posts'.getD (L'.links.idxOf l) 0
   let (L'', ret2) := posteriorPruneFast L' post' beam
-  let F2 := fastPrune L' post' beam
-  let m2 := sameLat F2.lat L'' && decide (F2.ret = ret2)
+  let parts2 := prunePartsFast L' post' beam
+  let m2 := decide (L''.nodes = parts2.1.map L'.node) && decide (L''.links = parts2.2.1.map (renumLink parts2.1)) && decide (parts2.2.2 = ret2)
   let sn := decide (L''.nodes = L'.nodes)
   let sl := decide (L''.links = L'.links)
   let ss := decide (L''.start = L'.start)
@@ -116,9 +89,9 @@ def report (s : St) (beam : Int) : List String := Id.run do
   -- the model's proof-side definitions themselves (small lattices): posteriorPrune, keepOrder, keptLinks, exitsLoop = exitsCut
   if L.links.length ≤ maxDirect then
     let (M, r) := posteriorPrune L post beam
-    let d1 := sameLat M L' && decide (r = F.ret) && decide (keepOrder L post beam = F.order) && decide (keptLinks L post beam = F.kept)
+    let d1 := sameLat M L' && decide (r = ret) && decide (keepOrder L post beam = order) && decide (keptLinks L post beam = kept)
     let (M2, r2) := posteriorPrune L' post' beam
-    let d2 := sameLat M2 L'' && decide (r2 = F2.ret)
+    let d2 := sameLat M2 L'' && decide (r2 = ret2)
     let lp := (List.range L.n).all fun v => decide (exitsLoop L post beam v = exitsCut L post beam v)
     out := out ++ [s!"direct first={b01 d1} second={b01 d2} loop={b01 lp}"]
   else out := out ++ ["direct skipped"]
